@@ -692,7 +692,7 @@ func core1(full bool, yield func(Case) bool) {
 						if idx != "" {
 							inner = inner.bind(idx, vals.Int(0), false)
 						}
-						l := &Loop{ID: "L1", Tag: cb.tag, Idx: idx, Var: vn, Coll: collName, IfFirst: i%2 == 0}
+						l := &Loop{ID: "L1", Tag: cb.tag, Idx: idx, Var: vn, Coll: collName, IfFirst: i%2 == 0, Spell: spellOf(i)}
 						if cb.tag != "template" && i%3 != 0 {
 							if p, _, _, ok := scalarPaths(inner, d, vn); ok && !noExpr(p[0]) {
 								l.Bind = p[0]
@@ -824,7 +824,7 @@ func core2(yield func(Case) bool) {
 									innerSample = vals.Str("p")
 								}
 								in := o.bind(ii, vals.Int(0), false).bind(iv, innerSample, nilMid)
-								inner := &Loop{ID: "L2", Tag: []string{"div", "section", "template"}[i%3], Idx: ii, Var: iv, Coll: innerColl,
+								inner := &Loop{ID: "L2", Tag: []string{"div", "section", "template"}[i%3], Idx: ii, Var: iv, Coll: innerColl, Spell: spellOf(i),
 									Body: []Node{probeRich("p2", in, d, pool, i, nil, iv)}}
 								if els {
 									inner.Else = &Else{ID: "E2", Sep: elseSeps[i%len(elseSeps)], Body: []Node{only(probeOf("p3", o, d, pool, i, nil), "text", "tern")}}
@@ -913,7 +913,7 @@ func core3(yield func(Case) bool) {
 						}
 						in := o.bind(iv, isample, false)
 						names := uniq([]string{"p", iv, rt.shadow})
-						il := &Loop{ID: "L2", Tag: []string{"div", "template"}[i%2], Var: iv, Coll: "p." + inner,
+						il := &Loop{ID: "L2", Tag: []string{"div", "template"}[i%2], Var: iv, Coll: "p." + inner, Spell: spellOf(i),
 							Body: []Node{probeRich("p2", in, d, names, i, nil, iv)}}
 						if i%4 == 3 {
 							il.Idx = "i"
@@ -1114,6 +1114,9 @@ func (g *gen) elem(k string, depth int, label string) vals.V {
 				m.M["children"] = vals.V{K: "[]any", L: []vals.V{}}
 			}
 		}
+		if ch, has := m.M["children"]; has {
+			m.M["kids-list"] = ch // the same list under a key only brackets can spell
+		}
 		return m
 	case "[]flag":
 		return vals.Bool(rapid.Bool().Draw(g.t, label))
@@ -1275,8 +1278,12 @@ func (g *gen) collPaths(sc sscope) []string {
 		case !ok:
 		case isSeq(s.K) || s.K == "nil":
 			out = append(out, n)
+			// through an index step: items[0].children
+			if e := elems(s); len(e) > 0 && e[0].K == "map" && !hasNil(s) {
+				out = append(out, n+".0.children", n+".0.kids-list")
+			}
 		case s.K == "map":
-			out = append(out, n+".children")
+			out = append(out, n+".children", n+".kids-list")
 		case s.K == "rec" || s.K == "*rec":
 			out = append(out, n+".Kids")
 		case isEmb(s.K):
@@ -1335,12 +1342,23 @@ func (g *gen) inc() Node {
 	return Node{Inc: in}
 }
 
+// spellOf picks the k-th of a fixed rotation of header spellings (0 = the common one).
+func spellOf(k int) *Spell {
+	if k%4 == 0 {
+		return nil
+	}
+	return &Spell{Vars: k % 6, In: k / 2 % 8, Pad: k%5 == 1, Path: k / 3 % 4, Single: k%4 == 1, Upper: k%7 == 2, Extra: k / 5 % 4}
+}
+
 func (g *gen) chooser() func(int) int {
 	return func(n int) int { return g.int(0, n-1, "ch") }
 }
 
 func (g *gen) loop(sc sscope, depth int, outerVars []string) []Node {
 	l := &Loop{ID: g.id("L")}
+	if g.int(0, 1, "spelled") == 1 {
+		l.Spell = spellOf(g.int(1, 839, "spell"))
+	}
 	paths := g.collPaths(sc)
 	switch r := g.int(0, 11, "collsrc"); {
 	case r == 0 || len(paths) == 0:
@@ -1364,7 +1382,7 @@ func (g *gen) loop(sc sscope, depth int, outerVars []string) []Node {
 	switch {
 	case ok && isSeq(c.K) && sampleOK(c):
 		elem, _ = firstNonNil(c)
-	case strings.HasSuffix(l.Coll, ".children"):
+	case strings.HasSuffix(l.Coll, ".children"), strings.HasSuffix(l.Coll, ".kids-list"):
 		elem = mapOf("a", 1) // children are lists of maps, also where the sample item has none
 	case strings.HasSuffix(l.Coll, ".Kids"):
 		elem = recOf("a", "ta", 1)
@@ -1374,7 +1392,7 @@ func (g *gen) loop(sc sscope, depth int, outerVars []string) []Node {
 		elem = sampleElem(c)
 	}
 	// nil items: known for a root collection; for item.children any list of the case may have one
-	nullable := (ok && hasNil(c)) || (g.nils && strings.HasSuffix(l.Coll, ".children"))
+	nullable := (ok && hasNil(c)) || (g.nils && (strings.HasSuffix(l.Coll, ".children") || strings.HasSuffix(l.Coll, ".kids-list")))
 	inner := sc.bind(l.Var, elem, nullable)
 	if l.Idx != "" {
 		inner = inner.bind(l.Idx, vals.Int(0), false)
@@ -1575,6 +1593,21 @@ func classify(c Case) (bool, []string) {
 			}
 			if l.Fill != nil {
 				cls["loop-root:"+l.Fill.Dir] = true
+			}
+			if sp := l.Spell; sp != nil {
+				cls["header-spelling:other"] = true
+				if l.Idx != "" {
+					cls[fmt.Sprintf("header-vars-spelling=%d", sp.Vars%6)] = true
+				}
+				if strings.Contains(l.Coll, ".") {
+					cls[fmt.Sprintf("header-path-spelling=%d", sp.Path%4)] = true
+				}
+				if sp.Upper {
+					cls["header:V-FOR"] = true
+				}
+				if sp.Single {
+					cls["header:single-quoted"] = true
+				}
 			}
 			if l.BindAs != "" {
 				cls["bound-attr-named-like-loop-var(on loop root)"] = true
